@@ -1,6 +1,6 @@
 (* C06 - the instrumented twin (Malformed/CostTwin.v) returns what Psd/Model.v returns, and its tick count
    (weights 1,1,0: one tick per fp.read call and per loop iteration) is linear in the size of the data:
-     ticks (read_psd_t b) <= 2 * length b + 56   for EVERY byte string b, whatever counts and lengths it declares. *)
+     ticks (read_psd_t b) <= 2 * length b + 1   for EVERY byte string b, whatever counts and lengths it declares. *)
 From PsdV Require Import Base.Prelude Psd.Codec Psd.Model Malformed.CostBase Malformed.CostProgress Malformed.CostTwin.
 From Coq Require Import ZArith List Bool Lia ZifyBool.
 Import ListNotations.
@@ -55,7 +55,7 @@ Ltac cstep :=
                      | let E := fresh "E" in destruct x eqn:E; try rewrite E in * |-; try note E; try notev E ]
         end)
   end.
-Ltac cfin := cbv beta iota zeta; cbn [fst snd]; split; [reflexivity | unfold is_readable in *; fin].
+Ltac cfin := cbv beta iota zeta; cbn [fst snd]; split; [reflexivity | unfold is_readable, glmi_probe in *; fin].
 Ltac cgo := unfold_twin; repeat cstep; cfin.
 
 (* ------------------------------------------------------------------ weights (1,1,0): ticks *)
@@ -235,6 +235,6 @@ Section Charset.
   Proof. intros s. unfold read_image_data_t, read_image_data. cgo. Qed.
 
   Lemma read_psd_spec b :
-    fst (T read_psd_t dec_s b) = read_psd dec_s b /\ snd (T read_psd_t dec_s b) <= 2 * len b + 64.
+    fst (T read_psd_t dec_s b) = read_psd dec_s b /\ snd (T read_psd_t dec_s b) <= 2 * len b + 1.
   Proof. unfold read_psd_t, read_psd, read_header_t, read_cmd_t, read_cmd. cgo. Qed.
 End Charset.
